@@ -1,6 +1,6 @@
 #!/bin/bash
 # usage: seedrun.sh <Cxx> [tier] [patchfile]  - applies the seeded patch to /repo, runs the property's check, reverts
-id=$1; tier=${2:-quick}; patch=${3:-/tmp/seed-$id-out/patch.diff}
+id=$1; tier=${2:-quick}; patch=${3:-/verif/seeded/$id/patch.diff}
 cd /repo && git status --short | grep -v '^??' | grep . && { echo "/repo not clean"; exit 2; }
 git -C /repo apply $patch || { echo "patch does not apply"; exit 2; }
 cd /verif && timeout 3000 bin/vcheck -p $id -tier $tier 2>&1 | grep -v "^    at" | cut -c1-260 | grep "VIOLATION\|harness=\|INFRA\|HELD\|KNOWN" | head -12
